@@ -338,6 +338,7 @@ int main(int argc, char** argv) {
     else { MOVES = {"e3", "e4", "d3", "Nf3", "e6", "e5", "d6", "Nf6"}; SCORES = {-50, 0, 30, 100, SearchConst::MATE0 - 4, -(SearchConst::MATE0 - 3)}; }
     if (part == "forced") { MOVES = {"e4", "f6", "Qh5+", "g6", "Qxg6+"}; }
     if (part == "twins") { MOVES = {"e3", "Nf3", "e6", "d6"}; }
+    if (part == "longpath") { MOVES = {"e3", "e4", "e6", "e5", "d3", "d6"}; }
     bool withFile = w.args.getInt("file", 1) != 0, withImport = w.args.getInt("import", 0) != 0;
 
     if (w.args.has("replay")) {
@@ -354,6 +355,10 @@ int main(int argc, char** argv) {
     if (part == "forced") {
         // 1.e4 f6 2.Qh5+ g6 : after Qh5+ the only legal move is g6; give every node a score so that IGNORE_SCORE becomes a valid result
         prefix = parseHist("A0.0.0 A1.1.0 A2.2.0 A3.3.0 S4.1.1 S3.0.0 S2.1.1 S1.1.1 S0.1.1");
+    } else if (part == "longpath") {
+        // 1.e3 e6 2.e4 e5 reaches at depth 4 the position that 1.e4 e5 reaches at depth 2; it already has two levels of descendants (3.d3 d6)
+        // when the short path is added: the depth reduction has to reach the grandchildren
+        prefix = parseHist("A0.0.0 A1.2.0 A2.1.0 A3.3.0 A4.4.0 A5.5.0 S6.1.1 S5.1.1 S4.1.1 S3.1.1 S2.1.1 S1.1.1 S0.1.1");
     } else if (part == "twins") {
         // 1.e3 e6 2.Nf3 and 1.Nf3 e6 2.e3: the same placement with half-move clocks 1 and 0, i.e. two DIFFERENT book nodes (the clock is part of the book
         // hash) from which the same move (...d6, a pawn move, clock 0) leads to the same child: one node, two parents, equal move
